@@ -149,7 +149,9 @@ impl C07 {
             }
             // values that do not fit
             if v.bits < 64 {
-                for val in [1u64 << v.bits, u64::MAX, (1u64 << v.bits) | 1] {
+                // ... incl. values whose excess bits sit only at the very top (a check made after
+                // shifting the value into place would not see them)
+                for val in [1u64 << v.bits, u64::MAX, (1u64 << v.bits) | 1, 1u64 << 63, 1u64 << 56, (1u64 << 63) | 0x12] {
                     ops.push(Op::Write { acc: v.bits, view: v.name.into(), value: val });
                 }
             }
